@@ -453,20 +453,30 @@ def build_replay():
             shutil.copy(os.path.join(VERIF, "replay", "Cargo.lock"), os.path.join(d, "Cargo.lock"))
         manifest = os.path.join(d, "Cargo.toml")
     p = sh(["cargo", "build", "--release", "--offline", "--manifest-path", manifest, "--target-dir", os.path.join(BUILD, "replay-target")], env=env)
+    if p.returncode == 0:
+        open(REPLAY + ".built-from", "w").write(replay_stamp())
     return p.returncode == 0
 
 
+def replay_stamp():
+    """which tree the replay binary was built from: the repository path and a hash of its sources and of the harness"""
+    h = hashlib.sha256(REPO.encode())
+    for root in (os.path.join(REPO, "src"), os.path.join(VERIF, "replay", "src")):
+        for d, _, fs in sorted(os.walk(root)):
+            for f in sorted(fs):
+                h.update(f.encode()); h.update(open(os.path.join(d, f), "rb").read())
+    h.update(open(os.path.join(REPO, "Cargo.toml"), "rb").read())
+    return h.hexdigest()
+
+
 def tree_changed_since_replay_build():
-    """the replay binary must be built from /repo's current working tree"""
+    """the replay binary must be built from the current working tree of the repository under check (and not,
+    say, from the scratch copy of an earlier self-test)"""
     try:
-        t = os.path.getmtime(REPLAY)
+        return open(REPLAY + ".built-from").read() != replay_stamp() or not os.path.exists(REPLAY)
     except OSError:
         return True
-    for d, _, fs in os.walk(os.path.join(REPO, "src")):
-        for f in fs:
-            if os.path.getmtime(os.path.join(d, f)) > t:
-                return True
-    return os.path.getmtime(os.path.join(REPO, "Cargo.toml")) > t
+
 
 
 # profile T (C18, C19): real-thread scenarios; `block` is a deterministic schedule, `stress` repeats a
@@ -499,7 +509,7 @@ def replay_run(scenario, tape):
 
 
 def replay_search(template, pid, secs=90):
-    if not build_replay():
+    if tree_changed_since_replay_build() and not build_replay():
         return None
     if template in THREAD_SCENARIOS:
         return thread_search(template, pid, secs)
@@ -716,7 +726,7 @@ def main():
         sys.exit(2)
     if not a.no_evidence:
         write_evidence(a.property, a.tier, res, relevant, viol, known, time.time() - t0)
-    if a.tier == "thorough" and known and build_replay():
+    if a.tier == "thorough" and known and (not tree_changed_since_replay_build() or build_replay()):
         for f in {id(f): f for (_, _, f) in known}.values():
             r = f.get("replay")
             if r:
@@ -725,9 +735,7 @@ def main():
                 print(f"  replayed {f.get('id')} on the real crate: {r['scenario']} {r['tape']} -> {'reproduced' if ok else 'NOT reproduced'}")
     # findings outside the verified profiles: reproduced on the real crate on every run
     ro = [f for f in load_findings().get("findings", []) if f.get("kind") == "replay-only" and f.get("property") == a.property]
-    if ro and os.path.exists(REPLAY) or (ro and build_replay()):
-        if tree_changed_since_replay_build():
-            build_replay()
+    if ro and (not tree_changed_since_replay_build() or build_replay()):
         for f in ro:
             r = f["replay"]
             d = replay_run(r["scenario"], r["tape"])
